@@ -363,8 +363,8 @@ func (*BinaryStringExprNode) GetType() NodeType {
 }
 
 func (node *BinaryStringExprNode) IsSeekable() bool {
-	return (node.op == BinaryOpEQ || node.op == BinaryOpNEQ) &&
-		(node.left.IsConst() || node.right.IsConst())
+	// seeking to the compared value only answers "is some element equal to it"; for != every element has to be looked at
+	return node.op == BinaryOpEQ && (node.left.IsConst() || node.right.IsConst())
 }
 
 func (node *BinaryStringExprNode) EvalBoolWithSeek(s Symbols, cursor TypeSeekableSetCursor) bool {
